@@ -24,6 +24,15 @@ class LeafFieldSelections(June2018ReleaseValidationRule):
         )
 
         if not rtype:
+            if field.name.value == "__typename" and field.selection_set:
+                return [
+                    graphql_error_from_nodes(
+                        message="Field __typename must not have a selection since type String has no subfields.",
+                        nodes=field,
+                        path=path,
+                        extensions=self._extensions,
+                    )
+                ]
             return (
                 []
             )  # Handled by field_selections_on_objects_interfaces_and_unions_types rule
